@@ -697,6 +697,52 @@ def _ftext_random(r, n):
 
 # ---------------------------------------------------------------------------------------------- evidence hooks
 
+class _XX:
+    """second part: a scalar held in the C++ template mpt::metatype::value<T> (mptcore/meta.h) and converted through its
+    convert(), with and without destination, through harness/drvxx_convert.cpp"""
+    id = "C07"
+    area = "convert"
+    driver = "drvxx_convert"
+    cxx = True
+    fixed_lines = 0
+
+    @staticmethod
+    def corpus(chk):
+        return []
+
+    @staticmethod
+    def scripts(tier, seed, scale=1):
+        out = []
+        for s_ in "iuxt":
+            pts = _int_boundary(s_)
+            for t_ in ALL:
+                sel = pts if tier != "quick" else [v for k, v in enumerate(pts) if k % 3 == 0 or v in _near(list(INTS.get(t_, (0, 0))) + [0, -1, 128, 2 ** 63 - 1, 2 ** 64 - 1], INTS[s_][0], INTS[s_][1], 1)]
+                ops = ["cx hold %s %s %d" % (s_, t_, v) for v in sel]
+                ops = [op for op in ops if _xx_rounded(op) is None]
+                out += _chunks("xx:hold:%s>%s" % (s_, t_), ops, 12)
+        for s_ in "df":
+            fp = _float_points(s_)
+            for t_ in ALL:
+                sel = fp if tier != "quick" else fp[::4]
+                ops = ["cx hold %s %s %s" % (s_, t_, fhex(s_, x)) for x in sel]
+                ops = [op for op in ops if _xx_rounded(op) is None]
+                out += _chunks("xx:hold:%s>%s" % (s_, t_), ops, 12)
+        return out
+
+    nontrivial = staticmethod(lambda script, c_lines: nontrivial(script, c_lines))
+    tally = staticmethod(lambda chk, script, c_lines: None)
+    finding_key = staticmethod(lambda script, res: finding_key(script, res))
+
+
+def _xx_rounded(op):
+    """a `cx hold` op whose floating target cannot hold the source exactly (the rounding finding has its own scripts)"""
+    w = op.split()
+    return rounded_result("c vval %s %s %s" % (w[2], w[3], w[4]))
+
+
+extra_parts = [_XX]
+
+
 def nontrivial(script, c_lines):
     ok = ref = False
     for ln in c_lines:
